@@ -126,8 +126,10 @@ def check_layout(res, L, rng, tag, reps, ob, model):
         res.case(('identities', tag, M.value.tolist()), nontrivial=True)
         c, s_, ch, sh, ex = M.cos(), M.sin(), M.cosh(), M.sinh(), M.exp()
         inp = dict(site, M=M.value.tolist())
-        # the tolerance is relative to the magnitude of the terms involved: the series terms |M|^k/k! reach about e^|M|
-        terms = math.exp(float(np.sqrt(np.sum(M.value ** 2))))
+        # tolerance: 1e-6 relative to the magnitude of the terms of the identity (as the property states), plus the rounding
+        # of the unscaled 30-term series, whose terms |M|^k/k! sum to e^|M| in the operator norm: 1e-12 * e^|M|_op
+        opn = float(np.linalg.norm(np.asarray(L.get_left_gmt_matrix(M), dtype=float), 2))
+        terms = 1e-6 * math.exp(opn)
         checks = [('cos^2+sin^2=1', c * c + s_ * s_, one, mag(c * c, s_ * s_)), ('cosh^2-sinh^2=1', ch * ch - sh * sh, one, mag(ch * ch, sh * sh)),
                   ('exp=cosh+sinh', ex, ch + sh, mag(ch, sh)), ('tan*cos=sin', M.tan() * c, s_, mag(M.tan()) * mag(c)),
                   ('tanh*cosh=sinh', M.tanh() * ch, sh, mag(M.tanh()) * mag(ch)),
@@ -168,6 +170,11 @@ def run_job(job, tier, seed):
         for i, s in enumerate(sigs):
             L = real.make_layout(s)
             common.gcall(res, check_layout, L, rng, f"S{i}", 3 if tier == 'quick' else 10, ob, True)
+        # dense operands in 32 and 64 dimensions: the largest coefficient says little about the norm there
+        # (fixed defect: exp scaled its argument by the largest coefficient and lost accuracy, 1e-5 .. 1e-3 relative)
+        for i, s in enumerate([[1] * 5, [1, 1, 1, 1, 1, -1]] if tier == 'quick' else [[1] * 6, [1, 1, 1, 1, 1, -1], [0, 1, 1, 1, 1, 1]]):
+            L = real.make_layout(s)
+            common.gcall(res, check_layout, L, rng, f"D{i}", 2 if tier == 'quick' else 4, ob, False)
     elif job == 'series_jit':
         for i, s in enumerate([[1, 1, -1], [1, 1, 1, 1]]):
             L = real.make_layout(s)
